@@ -301,6 +301,22 @@ class RepeatedNodeWrapper(MutableSequence[_M]):
         self._repeated.auto_claim_comments()
 
 
+def drop_views_of(
+        instance: base.RawTreeModel,
+        old_wrapper: Optional[RepeatedNodeWrapper[Any]],
+        new_wrapper: RepeatedNodeWrapper[Any],
+) -> None:
+    """Forgets the cached views (tags, postings, meta, ...) built on a wrapper that is being replaced.
+
+    They are rebuilt on the new wrapper at the next access.
+    """
+    if old_wrapper is None or old_wrapper is new_wrapper:
+        return
+    for name, cached in list(instance.__dict__.items()):
+        if getattr(cached, '_raw_wrapper', None) is old_wrapper:
+            del instance.__dict__[name]
+
+
 class repeated_node_property(base_rw_property[RepeatedNodeWrapper[_M], base.RawTreeModel]):
     def __init__(self, inner_field: repeated_field[_M]) -> None:
         super().__init__()
@@ -321,6 +337,7 @@ class repeated_node_property(base_rw_property[RepeatedNodeWrapper[_M], base.RawT
         repeated = self._inner_field.__get__(instance)
         replace_node(repeated, value.repeated)
         self._inner_field.__set__(instance, value.repeated)
+        drop_views_of(instance, instance.__dict__.get(self._attr), value)
         instance.__dict__[self._attr] = value
 
 
